@@ -329,11 +329,29 @@ void QXmpp::Private::writeOptionalXmlAttribute(QXmlStreamWriter *stream, QString
     }
 }
 
+// Writes element text so that every conforming XML parser reads it back unchanged: QXmlStreamWriter writes a carriage
+// return in character data literally, and XML 1.0 (2.11) makes the reader turn a literal CR (or CR LF) into LF; written as
+// the character reference &#13; it is preserved.
+static void writeCharactersPreservingCr(QXmlStreamWriter *stream, QStringView text)
+{
+    qsizetype from = 0;
+    for (qsizetype i = 0; i < text.size(); ++i) {
+        if (text[i] == u'\r') {
+            stream->writeCharacters(toString65(text.mid(from, i - from)));
+            stream->writeEntityReference(QStringLiteral("#13"));
+            from = i + 1;
+        }
+    }
+    stream->writeCharacters(toString65(text.mid(from)));
+}
+
 void QXmpp::Private::writeXmlTextElement(QXmlStreamWriter *stream, QStringView name,
                                          QStringView value)
 {
     if (!value.isEmpty()) {
-        stream->writeTextElement(toString65(name), toString65(value));
+        stream->writeStartElement(toString65(name));
+        writeCharactersPreservingCr(stream, value);
+        stream->writeEndElement();
     } else {
         stream->writeEmptyElement(toString65(name));
     }
